@@ -12,6 +12,7 @@ import (
 	"sort"
 	"strings"
 	"sync"
+	"time"
 )
 
 // Ctx collects everything one run of one property harness produces.
@@ -21,7 +22,8 @@ type Ctx struct {
 	Seed   int64
 	Rng    *rand.Rand
 	OutDir string
-	Only   int  // replay: only this case id is emitted (-1 = all)
+	Only   int // replay: only this case id is emitted (-1 = all)
+	Start  time.Time
 	Fine   bool // fine-grained phase: the library is compiled against harness/vsync (lock operations are yield points, adversarial pools)
 	Input  json.RawMessage
 
@@ -52,12 +54,29 @@ func New(prop, tier string, seed int64, out string, only int) (*Ctx, error) {
 	if err != nil {
 		return nil, err
 	}
-	return &Ctx{Prop: prop, Tier: tier, Seed: seed, Rng: rand.New(rand.NewSource(seed)), OutDir: out, Only: only,
+	return &Ctx{Start: time.Now(), Prop: prop, Tier: tier, Seed: seed, Rng: rand.New(rand.NewSource(seed)), OutDir: out, Only: only,
 		casesF: f, cases: bufio.NewWriterSize(f, 1<<20), hist: map[string]int{}, nontrivial: map[string]struct{}{},
 		extra: map[string]interface{}{}}, nil
 }
 
 func (c *Ctx) Thorough() bool { return c.Tier == "thorough" }
+
+// Expired: the schedule explorations of the thorough tier stop starting new schedules once the harness has run
+// for VERIF_EXPLORE_SECONDS (default 1500): the tier is "as deep as the time allows", the evidence records how
+// far it got (exhaustive = false for an exploration that was cut).
+func (c *Ctx) Expired() bool {
+	limit := 1500.0
+	if v := os.Getenv("VERIF_EXPLORE_SECONDS"); v != "" {
+		fmt.Sscan(v, &limit)
+	}
+	if time.Since(c.Start).Seconds() > limit {
+		c.mu.Lock()
+		c.extra["exploration_cut_by_time_budget"] = true
+		c.mu.Unlock()
+		return true
+	}
+	return false
+}
 
 // N picks the quick or thorough size.
 func (c *Ctx) N(quick, thorough int) int {
